@@ -42,19 +42,21 @@ def L(K, funcs, fvis=VIS3, mvis=VIS3, anon=True):
 # skipped (so `states` counts distinct trees).  levels[i] describes the bodies of the tables at depth i+1.
 QUICK = [
     # depth <= 2, two symbols per table; level-2 functions are definitions with public/private visibility
-    {"name": "d2", "roots": (None,), "levels": [L(2, "DF", VIS3, VIS2), L(2, "F", VIS2)]},
-    # depth <= 3 chains: one child per table above the innermost, every kind and visibility
-    {"name": "d3-k112", "roots": (None,), "levels": [L(1, "DFG"), L(1, "DF"), L(2, "DF")]},
+    {"name": "d2", "roots": (None,), "levels": [L(2, "DF", VIS3, VIS2, anon=False), L(2, "F", VIS2)]},
+    # depth <= 3 chains: one child per table above the innermost, two in the innermost
+    {"name": "d3-k112", "roots": (None,), "levels": [L(1, "DFG"), L(1, "DF"), L(2, "DF", VIS2)]},
     # depth <= 3, two children in the middle tables
-    {"name": "d3-k121", "roots": (None,), "levels": [L(1, "DF"), L(2, "F", VIS3, VIS2), L(1, "F", VIS2)]},
+    {"name": "d3-k121", "roots": (None,),
+     "levels": [L(1, "F", VIS2, VIS2, anon=False), L(2, "F", VIS3, VIS2, anon=False), L(1, "F", VIS2)]},
     # the root module is itself a named symbol
     {"name": "named-root", "roots": ("a",), "levels": [L(2, "DF", VIS2, VIS2), L(1, "F", VIS2)]},
 ]
 THOROUGH = QUICK + [
+    # the same shapes with the restrictions of the quick tier lifted one at a time
     {"name": "d2-mvis3", "roots": (None,), "levels": [L(2, "DF"), L(2, "F", VIS2)]},
     {"name": "d2-fvis3", "roots": (None,), "levels": [L(2, "DF"), L(2, "F")]},
-    {"name": "d2-decl", "roots": (None,), "levels": [L(2, "DF", VIS3, VIS2), L(2, "DF", VIS2)]},
-    {"name": "d3-k112-named-root", "roots": ("a",), "levels": [L(1, "DFG"), L(1, "DF"), L(2, "DF")]},
+    {"name": "d2-decl", "roots": (None,), "levels": [L(2, "DF", VIS3, VIS2), L(2, "D", VIS2)]},
+    {"name": "d3-k112-full", "roots": (None, "a"), "levels": [L(1, "DFG"), L(1, "DF"), L(2, "DF")]},
     {"name": "d3-k121-full", "roots": (None,), "levels": [L(1, "DF"), L(2, "DF"), L(1, "F", VIS2)]},
     {"name": "d3-k122", "roots": (None,), "levels": [L(1, "DF"), L(2, "F", VIS3, VIS2), L(2, "F", VIS2)]},
     {"name": "d3-k211", "roots": (None,), "levels": [L(2, "DF", VIS3, VIS2), L(1, "F"), L(1, "F")]},
